@@ -557,3 +557,13 @@ V("c02d-draws-cached-by-count", "C02", {"rule": "C02d", "contains": "keyed-draw"
 V("c02d-preserving-explicit-loop", "C02", "silent",
   (SIMSTEPS, "    detected_counts_by_mode = [\n        rng.choice(\n            number_of_detectable_counts,\n            size=multiplicity,\n            p=probabilities,\n        )\n        for probabilities in probabilities_by_mode\n    ]\n",
    "    detected_counts_by_mode = []\n    for probabilities in probabilities_by_mode:\n        detected_counts_by_mode.append(\n            rng.choice(number_of_detectable_counts, size=multiplicity, p=probabilities)\n        )\n"))
+
+# --- C15c Givens nulling
+V("c15c-degenerate-angle-wrong", "C15", {"rule": "C15c", "contains": "degenerate-arm"},
+  (CL, "        return np.pi / 2, 0.0\n", "        return np.pi / 4, 0.0\n"))
+V("c15c-general-angle-halved", "C15", {"rule": "C15c", "contains": "general-arm"},
+  (CL, "    theta = np.arctan(np.abs(r))\n", "    theta = np.arctan(np.abs(r)) / 2\n"))
+V("c15c-partner-sign-dropped", "C15", {"rule": "C15c", "contains": "general-arm"},
+  (CL, "        matrix_element_above = -U[modes[1], j]\n", "        matrix_element_above = U[modes[1], j]\n"))
+V("c15c-preserving-degenerate-phase-free", "C15", "silent",
+  (CL, "        return np.pi / 2, 0.0\n", "        return np.pi / 2, 1.0\n"))
